@@ -17,14 +17,14 @@ import (
 // ---- JSON-able structured case ----
 
 type metaCase struct {
-	Nonce      uint64    `json:"nonce"`
-	Name       *string   `json:"name"`
-	Creator    *string   `json:"creator"`
-	Royalties  uint32    `json:"royalties"`
-	Hash       *string   `json:"hash"`
-	URIs       []string  `json:"uris"`
-	NilURIs    bool      `json:"nil_uris"`
-	Attributes *string   `json:"attributes"`
+	Nonce      uint64   `json:"nonce"`
+	Name       *string  `json:"name"`
+	Creator    *string  `json:"creator"`
+	Royalties  uint32   `json:"royalties"`
+	Hash       *string  `json:"hash"`
+	URIs       []string `json:"uris"`
+	NilURIs    bool     `json:"nil_uris"`
+	Attributes *string  `json:"attributes"`
 }
 
 type tokenCase struct {
@@ -391,8 +391,8 @@ func genOptField(t *rapid.T, label string) *string {
 
 func genMetaCase(t *rapid.T, label string) *metaCase {
 	m := &metaCase{
-		Nonce:     rapid.SampledFrom([]uint64{0, 1, 127, 128, 16383, 16384, 1<<32 - 1, 1 << 32, 1 << 63, ^uint64(0)}).Draw(t, label+"nonce"),
-		Name:      genOptField(t, label+"name"), Creator: genOptField(t, label+"creator"), Hash: genOptField(t, label+"hash"), Attributes: genOptField(t, label+"attrs"),
+		Nonce: rapid.SampledFrom([]uint64{0, 1, 127, 128, 16383, 16384, 1<<32 - 1, 1 << 32, 1 << 63, ^uint64(0)}).Draw(t, label+"nonce"),
+		Name:  genOptField(t, label+"name"), Creator: genOptField(t, label+"creator"), Hash: genOptField(t, label+"hash"), Attributes: genOptField(t, label+"attrs"),
 		Royalties: rapid.SampledFrom([]uint32{0, 1, 127, 128, 9999, 10000, 10001, 1<<32 - 1}).Draw(t, label+"roy"),
 		NilURIs:   rapid.Bool().Draw(t, label+"niluris"),
 	}
